@@ -312,6 +312,11 @@ func zzStepKind(k int, classes int) {
 			}
 		}
 		zz.Assert(al == 0, "C14.F2.no-alias-to-shared-state/"+kind)
+		// C14-F4: no hidden input: the only nondeterministic primitive a
+		// goroutine-free run may reach is map iteration
+		if kind != "GoroutineStmt" && kind != "CallExpr" && kind != "AnonCallExpr" {
+			zz.Assert(zz.NondetCount("select-multiple-ready") == 0 && zz.NondetCount("address") == 0, "C14.F4.no-hidden-input/"+kind)
+		}
 		zz.Unfreeze()
 	} else {
 		// native oracle for F2: store through every alias the step handed
@@ -334,6 +339,16 @@ func zzStepKind(k int, classes int) {
 			*p = int64(12345)
 			zz.Assert(nilValue.IsNil() && env.NilValue.IsNil(), "C14.F2.no-alias-to-shared-state/"+kind)
 			*p = old
+		}
+		// native oracle for F4: the same tree in an equal fresh environment
+		// gives the same error status and the same kind of value
+		if kind != "GoroutineStmt" && kind != "CallExpr" && kind != "AnonCallExpr" && kind != "ChanStmt" && kind != "ChanExpr" && kind != "ForStmt" {
+			v2, err2, p2 := zzRunNode(zzStepEnv(), node, zzKindCat[k])
+			same := !p2 && (err == nil) == (err2 == nil)
+			if same && err == nil {
+				same = reflect.TypeOf(v) == reflect.TypeOf(v2)
+			}
+			zz.Assert(same, "C14.F4.no-hidden-input/"+kind)
 		}
 		for _, name := range []string{"x", "v1", "v2", "k", "v", "e"} {
 			if rv, gerr := e.GetValue(name); gerr == nil && rv.CanSet() && rv.Kind() == reflect.Interface {
